@@ -39,6 +39,9 @@ pub enum AOp {
     NextRefHold(u8),
     NextNow,
     SubGet,
+    /// continue with a clone of the subscriber and drop the original (with its prepared, possibly
+    /// queued, lock acquisition: a cancelled acquisition)
+    CloneSub { reset: bool },
     Yield,
     DropOwner,
 }
@@ -345,6 +348,20 @@ async fn run_task(tid: usize, ops: Vec<AOp>, mut owner: Option<Owner>, mut sub: 
                 if let Some((_, s)) = sub.as_ref() {
                     let v = s.get().await;
                     sh.rec(tid, HOp::Read, inv, Res::Val(v));
+                }
+            }
+            AOp::CloneSub { reset } => {
+                if let Some((from, s)) = sub.take() {
+                    let id = sh.next_sub.get();
+                    sh.next_sub.set(id + 1);
+                    let c = if reset { s.clone_reset() } else { s.clone() };
+                    drop(s);
+                    sub = Some((id, c));
+                    if reset {
+                        sh.rec(tid, HOp::Subscribe { id, reset: true }, inv, Res::Unit);
+                    } else {
+                        sh.rec(tid, HOp::SubClone { from, id }, inv, Res::Unit);
+                    }
                 }
             }
             AOp::Yield => YieldNow(false).await,
@@ -690,12 +707,13 @@ pub fn gen_async_case(rng: &mut Rng) -> ACase {
                     ops.push(AOp::DropOwner);
                 }
                 for _ in 0..k {
-                    ops.push(match rng.below(8) {
+                    ops.push(match rng.below(9) {
                         0..=2 => AOp::Next,
                         3 => AOp::NextCancel(1 + rng.below(2) as u8),
                         4 => AOp::NextRefHold(rng.below(3) as u8),
                         5 => AOp::NextNow,
                         6 => AOp::SubGet,
+                        7 => AOp::CloneSub { reset: rng.chance(1, 3) },
                         _ => AOp::Next,
                     });
                 }
